@@ -177,3 +177,14 @@ class SometimesRaises:
 class RaisesStopIteration:
     def __getstate__(self):
         return next(iter(()))          # StopIteration
+
+
+class Outer:
+    """a class nested in another class; also reachable as a module attribute (the name dumps record is `Inner`)"""
+
+    class Inner:
+        def __init__(self, v=1):
+            self.v = v
+
+
+Inner = Outer.Inner
